@@ -2,7 +2,7 @@
 # Runs the repository's own suite with the verif tag OFF and compares with BASELINE.json's stable_pass list.
 export GOFLAGS=-mod=mod GOPROXY=off GOSUMDB=off GOTOOLCHAIN=local
 OUT=${1:-/tmp/baseline.$$.json}
-(cd /repo && go test -mod=mod -json -vet=off -count=1 -timeout 25m ./... > "$OUT" 2>/dev/null)
+(cd ${REPO_DIR:-/repo} && go test -mod=mod -json -vet=off -count=1 -timeout 25m ./... > "$OUT" 2>/dev/null)
 python3 - "$OUT" <<'PY'
 import json,sys
 base=json.load(open('/root/.vp/BASELINE.json'))
@@ -24,5 +24,5 @@ sys.exit(1 if missing else 0)
 PY
 RC=$?; rm -f "$OUT"
 # failing golden tests leave actual_* files behind; keep only the one that was there from the start
-git -C /repo status --short test_outputs | awk '$1=="??"{print $2}' | grep -v actual_ipblockstest_4_connlist_output.txt | while read f; do rm -f "/repo/$f"; done
+git -C ${REPO_DIR:-/repo} status --short test_outputs | awk '$1=="??"{print $2}' | grep -v actual_ipblockstest_4_connlist_output.txt | while read f; do rm -f "${REPO_DIR:-/repo}/$f"; done
 exit $RC
